@@ -14,6 +14,7 @@ import ast
 from .. import astutil as au
 from ..tables import rule, VAR_CARRIERS
 from . import analysis
+from ..carriers import local_roles, role
 
 rule("C13.a", "an accepted periodicity / freq option is applied (periodic merge after the last widening of the per-variable "
               "carriers; mapping extended to the minor grid) or rejected explicitly, for every class that accepts it", floor=14)
@@ -47,14 +48,15 @@ def _widenings(p, fn, after_line=None, receiver=None, _depth=0, _seen=None):
     if fn in _seen or _depth > 2:
         return out
     _seen.add(fn)
+    roles = local_roles(fn)
     for st in au.walk_stmts(fn.body):
         if after_line is not None and st.lineno <= after_line:
             continue
         if isinstance(st, ast.Assign) and isinstance(st.value, ast.Call) and au.method_name(st.value) in ("hstack", "concatenate", "append"):
-            tgt = [t for t in st.targets if au.terminal(t) in VAR_CARRIERS]
+            tgt = [t for t in st.targets if role(t, roles) in VAR_CARRIERS]
             a0 = st.value.args[0] if st.value.args else None
             first = a0.elts[0] if isinstance(a0, (ast.Tuple, ast.List)) and a0.elts else a0
-            if tgt and first is not None and au.terminal(first) in VAR_CARRIERS and au.terminal(first) == au.terminal(tgt[0]):
+            if tgt and first is not None and role(first, roles) in VAR_CARRIERS and role(first, roles) == role(tgt[0], roles):
                 out.append(st)
         for n in au.walk_own(st):
             if isinstance(n, ast.Call) and isinstance(n.func, ast.Attribute) and isinstance(n.func.value, ast.Name) and n.func.value.id == "self":
@@ -127,6 +129,12 @@ def run(ctx):
             if ws:
                 offenders.append((c, fn, ws))
         own_def = ci.methods.get(SETUP)
+        # ... and in the merging set-up itself, after its merge call
+        mfn = merge_cls.methods[SETUP]
+        mline = min(c.lineno for cc, c in applicable if cc is merge_cls)
+        same = [w for w in _widenings(p, mfn, mline, ci) if not any(w is x for _, _, ws in offenders for x in ws)]
+        if same and merge_cls is ci:
+            offenders.append((ci, mfn, same))
         if not offenders:
             ctx.ob("C13.a", ci.name, "periodic merge is the last change of the variable space", True,
                    ok_detail="merge in %s.%s" % (merge_cls.name, SETUP), node=ci.node)
